@@ -108,7 +108,7 @@ CHECKS["C11"] = ("Proof: C11.load_save_sd / repad_id — a four-sided .sd loaded
                  "identity for 1/2/4-sided .fd; save then load is the identity for four well-formed sides in both flavours, so both flavours load "
                  "back the same disk. Tie/oracle: same sources through both tools, no-op adds over tool-made / independent / bundled "
                  "images, DiskSector.dataOfPayload for every length 0..600 (exhaustive).", D, "7 C11")
-CHECKS["C12"] = ("Proof: C12.tape_reports_agree — tape create, list and extract print the same text (names, sizes, block counts, leader positions), either verbosity; C12.disk_list_report / disk_extract_report — for every image of four consistent sides with ordinary names, --list and "
+CHECKS["C12"] = ("Proof: C12.announcements_in_order — the files a create/add report announces as stored are, in order, a sub-sequence of the source arguments (name, kind, size, blocks): none twice, none out of order, for every image and source list; C12.tape_reports_agree — tape create, list and extract print the same text (names, sizes, block counts, leader positions), either verbosity; C12.disk_list_report / disk_extract_report — for every image of four consistent sides with ordinary names, --list and "
                  "--extract (quiet and verbose) print exactly Disk.readReport, a stateless text: per side the separator, 'Side k', one line per live "
                  "entry in catalog order under its catalog name (verbose: kind, byte size, block count), the closing line of the side (file count or "
                  "'empty', plural, blocks, percentage), then '---', 'TOTAL' and the totals for an extraction; report_lines_are_the_files — one line "
